@@ -6,12 +6,18 @@
      pushed     css_parser.prodparser.tokenizer._pushed      (tokenize2.py Tokenizer.push/clear; drained by tokenize)
      raising    css_parser.log.raiseExceptions               (errorhandler.py; flipped by parse.py CSSParser.__parseSetting)
      ser/prefs/level/memo/sellevel
-                css_parser.ser (identity), its .prefs (an abstract preference vector; bit 0 of the
-                code = prefs.indentSpecificities), ._level, len(._selectors), ._selectorlevel  (serialize.py)
+                css_parser.ser (identity), its .prefs (an abstract preference vector, whether the caller
+                mutated it in place or replaced it; bit 0 of the code = prefs.indentSpecificities),
+                ._level, the selector memo len(._selectors), ._selectorlevel          (serialize.py)
      dx         cssproductions.PRODUCTIONS contains the DXImageTransform production (settings.set)
+     cache      tokenize2._TOKENIZER_CACHE: key -> compiled (macros, productions) configuration
+     profile    css_parser.profile (the global Profiles object: addProfile/removeProfile/defaultProfiles), abstract
+     logcfg     level and handlers of css_parser.log, abstract
      parsers    the CSSParser objects the caller has constructed: (the slot self.__globalRaising, where
                 a tree keeps the flag on the object: written at construction and/or at parse entry;
                 the raiseExceptions argument)  -- caller-owned, not a library global
+   Not cells: util.Base's class-level tokenizer / productions and prodparser.tokenizer's compiled
+   productions are fixed at import time (the translator checks that nothing assigns them afterwards).
 
    What a call *does* inside its bracket is not modelled: a body is an arbitrary strategy
    (list obs -> action) that sees every observation it has made so far and chooses the next primitive
@@ -33,42 +39,83 @@ Record sites := mkSites {
   comb_restores_normal   : bool;  (* csscombine: setSerializer(oldser) before the normal return              *)
   comb_restores_exc      : bool;  (* ... in a finally clause covering everything after the swap              *)
   level_restored_exc     : bool;  (* every  self._level += 1  is undone in a finally clause                  *)
-  memo_guarded           : bool   (* _selectors/_selectorlevel are touched only under prefs.indentSpecificities *)
+  memo_guarded           : bool;  (* _selectors/_selectorlevel are touched only under prefs.indentSpecificities *)
+  memo_scoped            : bool;  (* the selector memo lives for one serialization of one sheet: do_CSSStyleSheet
+                                     starts from an empty memo and puts the previous one back in a finally
+                                     clause; outside a sheet the memo is not used                            *)
+  cache_key_full         : bool;  (* the key of _TOKENIZER_CACHE contains the macro definitions (not only their names) *)
+  dx_clears_cache        : bool   (* settings.set clears the cache when it changes PRODUCTIONS (the key of the
+                                     default configuration does not mention the content of PRODUCTIONS)       *)
 }.
 
 Definition well_bracketed (st : sites) : bool :=
   parse_restores_normal st && parse_restores_exc st && parse_saves_at_entry st && parse_saved_in_frame st &&
   pp_clears_pushed st && pp_clears_saved st &&
-  comb_restores_normal st && comb_restores_exc st && level_restored_exc st && memo_guarded st.
+  comb_restores_normal st && comb_restores_exc st && level_restored_exc st && memo_guarded st &&
+  memo_scoped st && cache_key_full st && dx_clears_cache st.
 
 (* the tree as pinned (before the fix: commits of C06), transcribed by hand; used for the _refuted theorems *)
 Definition pinned : sites :=
-  mkSites true true false false false true false true false true true.
+  mkSites true true false false false true false true false true true false true true.
 
 (* -------------------------------------------------------------------------------- state *)
+Definition tkey := (option (N * N) * option N)%type.   (* macros = (names, definitions), productions; None = default *)
+Definition tcfg := ((N * N) * N)%type.                 (* the configuration a Tokenizer ends up running *)
+
 Record G := mkG {
   saved : list N; pushed : list N; raising : bool;
   ser : N; prefs : N; level : Z; memo : N; sellevel : Z;
-  dx : bool; parsers : list (bool * bool)
+  dx : bool; parsers : list (bool * bool);
+  profile : N; logcfg : N; cache : list (tkey * tcfg)
 }.
 
-Definition G0 : G := mkG [] [] true 0%N 0%N 0%Z 0%N 0%Z false [].
+(* the state after `import css_parser`: the default configuration has been compiled once (module-level tokenizers) *)
+Definition G0 : G := mkG [] [] true 0%N 0%N 0%Z 0%N 0%Z false [] 0%N 0%N [((None, None), ((0, 0), 0))%N].
 
 Definition indent_pref (p : N) : bool := N.odd p.
 
 Definition set_stash (sv pu : list N) (g : G) : G :=
-  mkG sv pu (raising g) (ser g) (prefs g) (level g) (memo g) (sellevel g) (dx g) (parsers g).
+  mkG sv pu (raising g) (ser g) (prefs g) (level g) (memo g) (sellevel g) (dx g) (parsers g) (profile g) (logcfg g) (cache g).
 Definition set_raising (b : bool) (g : G) : G :=
-  mkG (saved g) (pushed g) b (ser g) (prefs g) (level g) (memo g) (sellevel g) (dx g) (parsers g).
+  mkG (saved g) (pushed g) b (ser g) (prefs g) (level g) (memo g) (sellevel g) (dx g) (parsers g) (profile g) (logcfg g) (cache g).
 Definition set_ser (i p : N) (lv : Z) (m : N) (sl : Z) (g : G) : G :=
-  mkG (saved g) (pushed g) (raising g) i p lv m sl (dx g) (parsers g).
+  mkG (saved g) (pushed g) (raising g) i p lv m sl (dx g) (parsers g) (profile g) (logcfg g) (cache g).
 Definition set_prefs (p : N) (g : G) : G := set_ser (ser g) p (level g) (memo g) (sellevel g) g.
 Definition set_level (lv : Z) (g : G) : G := set_ser (ser g) (prefs g) lv (memo g) (sellevel g) g.
 Definition set_memo (m : N) (sl : Z) (g : G) : G := set_ser (ser g) (prefs g) (level g) m sl g.
-Definition set_dx (g : G) : G :=
-  mkG (saved g) (pushed g) (raising g) (ser g) (prefs g) (level g) (memo g) (sellevel g) true (parsers g).
-Definition add_parser (p : bool * bool) (g : G) : G :=
-  mkG (saved g) (pushed g) (raising g) (ser g) (prefs g) (level g) (memo g) (sellevel g) (dx g) (parsers g ++ [p]).
+Definition set_dx_cache (c : list (tkey * tcfg)) (g : G) : G :=
+  mkG (saved g) (pushed g) (raising g) (ser g) (prefs g) (level g) (memo g) (sellevel g) true (parsers g) (profile g) (logcfg g) c.
+Definition set_cache (c : list (tkey * tcfg)) (g : G) : G :=
+  mkG (saved g) (pushed g) (raising g) (ser g) (prefs g) (level g) (memo g) (sellevel g) (dx g) (parsers g) (profile g) (logcfg g) c.
+Definition set_parsers (ps : list (bool * bool)) (g : G) : G :=
+  mkG (saved g) (pushed g) (raising g) (ser g) (prefs g) (level g) (memo g) (sellevel g) (dx g) ps (profile g) (logcfg g) (cache g).
+Definition add_parser (p : bool * bool) (g : G) : G := set_parsers (parsers g ++ [p]) g.
+Definition set_profile (p : N) (g : G) : G :=
+  mkG (saved g) (pushed g) (raising g) (ser g) (prefs g) (level g) (memo g) (sellevel g) (dx g) (parsers g) p (logcfg g) (cache g).
+Definition set_logcfg (l : N) (g : G) : G :=
+  mkG (saved g) (pushed g) (raising g) (ser g) (prefs g) (level g) (memo g) (sellevel g) (dx g) (parsers g) (profile g) l (cache g).
+
+(* -------------------------------------------------------------------------------- the tokenizer cache *)
+(* tokenize2.py Tokenizer.__init__: hash_key = str((sorted(macros.items()) | macros, productions)) is computed from
+   the ARGUMENTS (None stays None), the compiled configuration from the arguments with None replaced by the
+   module-level MACROS / PRODUCTIONS (the latter changed by settings.set). *)
+Definition resolve (dxv : bool) (m : option (N * N)) (p : option N) : tcfg :=
+  (match m with Some x => x | None => (0, 0)%N end,
+   match p with Some y => y | None => if dxv then 1%N else 0%N end).
+
+Definition keyfn (st : sites) (m : option (N * N)) (p : option N) : tkey :=
+  (if cache_key_full st then m else option_map (fun x => (fst x, 0%N)) m, p).
+
+Definition eqb_oN (a b : option N) : bool :=
+  match a, b with Some x, Some y => N.eqb x y | None, None => true | _, _ => false end.
+Definition eqb_oNN (a b : option (N * N)) : bool :=
+  match a, b with
+  | Some (x1, x2), Some (y1, y2) => N.eqb x1 y1 && N.eqb x2 y2
+  | None, None => true | _, _ => false end.
+Definition eqb_key (a b : tkey) : bool := eqb_oNN (fst a) (fst b) && eqb_oN (snd a) (snd b).
+
+Fixpoint lookup (k : tkey) (c : list (tkey * tcfg)) : option tcfg :=
+  match c with [] => None | (k', v) :: r => if eqb_key k k' then Some v else lookup k r end.
 
 (* -------------------------------------------------------------------------------- primitive events *)
 Inductive ev :=
@@ -77,12 +124,14 @@ Inductive ev :=
 | EvSave (t : N)             (* savedTokens.append(token)          prodparser.py NoMatch + stopIfNoMoreMatch   *)
 | EvPush (t : N)             (* tokenizer.push(token)              prodparser.py stopAndKeep / ParseError      *)
 | EvTake                     (* the shared tokenizer's generator yields one pushed token  tokenize2.py:150     *)
-| EvLog                      (* log.error/warn/...: reads log.raiseExceptions   errorhandler.py __handle       *)
-| EvSer (m : N) (sl : Z)     (* one call into css_parser.ser: reads ser, prefs, _level, _selectorlevel
-                                (serialize.py do_CSSStyleRule's last line reads it unconditionally) and, under
-                                indentSpecificities, the memo; under that preference it may replace
+| EvLog                      (* log.error/warn/...: reads log.raiseExceptions, level, handlers  errorhandler.py *)
+| EvSer (m : N) (sl : Z)     (* one call into css_parser.ser: reads ser, prefs, _level, _selectorlevel and,
+                                under indentSpecificities, the memo; under that preference it may replace
                                 memo and _selectorlevel by (m, sl)                                              *)
-| EvTok.                     (* Tokenizer(): reads PRODUCTIONS / the compiled-production cache                 *)
+| EvTok (m : option (N * N)) (p : option N)
+                             (* Tokenizer(macros, productions): looks the key up in _TOKENIZER_CACHE, compiles and
+                                stores on a miss; the tokenizer then runs the configuration it got             *)
+| EvProf.                    (* property validation: reads css_parser.profile                                  *)
 
 Inductive term := TRet | TExc | TFuel | TUninit | TNestSet.
 (* TFuel: the body did not stop within the fuel; TUninit: the body touched the token stash / push-back
@@ -94,9 +143,10 @@ Inductive term := TRet | TExc | TFuel | TUninit | TNestSet.
 Inductive obs :=
 | ONone
 | OTok (t : option N)
-| OFlag (b : bool)
+| OFlag (b : bool) (l : N)
 | OSer (i p : N) (lv sl : Z) (mm : option N)
-| ODx (b : bool)
+| OCfg (c : tcfg)
+| OProf (p : N)
 | ONest (r : list (list obs * term)).   (* what a nested public call made from a callback returned *)
 
 (* A body may call back into the public API (a fetcher, a replaceUrls replacer, a log handler that
@@ -109,16 +159,21 @@ Inductive action :=
 with call :=
 | CSetRaising (b : bool)            (* css_parser.log.raiseExceptions = b                            *)
 | CSetSer (i p : N)                 (* css_parser.setSerializer(CSSSerializer(prefs p))  (a fresh object) *)
-| CSetPrefs (p : N)                 (* css_parser.ser.prefs.<x> = v / useMinified() / useDefaults()   *)
+| CSetPrefs (p : N)                 (* css_parser.ser.prefs.<x> = v / useMinified() / useDefaults() / ser.prefs = Preferences(..) *)
 | CSetDX                            (* settings.set('DXImageTransform.Microsoft', True)               *)
-| CNewParser (praise : bool)        (* CSSParser(raiseExceptions=praise)                              *)
+| CSetProfile (p : N)               (* css_parser.profile.addProfile / removeProfile / defaultProfiles = ... *)
+| CSetLog (l : N)                   (* css_parser.log.setLevel / addHandler / removeHandler / setLog; CSSParser(log=, loglevel=) *)
+| CNewParser (praise : bool) (l : option N)
+                                    (* CSSParser(raiseExceptions=praise[, log=, loglevel=]): constructs a Tokenizer();
+                                       with log arguments it also changes level/handlers of css_parser.log *)
 | CParse (who : option nat) (b : list obs -> action)
     (* parseString/parseStyle (parseFile, parseUrl delegate) of the who-th parser object; None = the
        module-level functions, which construct CSSParser() on entry *)
 | CCombine (fresh fp : N) (b1 bm b2 : list obs -> action)
     (* script.csscombine: parse (b1) with an internal CSSParser(), resolveImports + encoding (bm),
        then serialisation (b2) under a fresh serializer (fresh, fp) swapped in for the caller's *)
-| CPlain (b : list obs -> action).  (* every other entry point: constructors, text setters, append*, getters *)
+| CPlain (b : list obs -> action).  (* every other entry point: constructors, text setters, append*, getters,
+                                       resolveImports, replaceUrls, Tokenizer(...) *)
 
 Definition body := list obs -> action.
 
@@ -134,17 +189,29 @@ Definition do_ev (st : sites) (inited : bool) (e : ev) (g : G) : option (G * obs
   | EvSave t => if inited then Some (set_stash (t :: saved g) (pushed g) g, ONone, true) else None
   | EvPush t => if inited then Some (set_stash (saved g) (t :: pushed g) g, ONone, true) else None
   | EvTake => if inited then Some (set_stash (saved g) (tl (pushed g)) g, OTok (hd_error (pushed g)), true) else None
-  | EvLog => Some (g, OFlag (raising g), inited)
+  | EvLog => Some (g, OFlag (raising g) (logcfg g), inited)
   | EvSer m sl =>
       Some (if reads_memo st g then set_memo m sl g else g,
             OSer (ser g) (prefs g) (level g) (sellevel g) (if reads_memo st g then Some (memo g) else None),
             inited)
-  | EvTok => Some (g, ODx (dx g), inited)
+  | EvTok m p =>
+      let k := keyfn st m p in
+      match lookup k (cache g) with
+      | Some v => Some (g, OCfg v, inited)
+      | None => let v := resolve (dx g) m p in Some (set_cache ((k, v) :: cache g) g, OCfg v, inited)
+      end
+  | EvProf => Some (g, OProf (profile g), inited)
   end.
 
+(* Tokenizer() with the default tables, as constructed by CSSParser.__init__ *)
+Definition tok_default (st : sites) (g : G) : G :=
+  match do_ev st false (EvTok None None) g with Some (g', _, _) => g' | None => g end.
 
 Definition is_setter (c : call) : bool :=
-  match c with CSetRaising _ | CSetSer _ _ | CSetPrefs _ | CSetDX | CNewParser _ => true | _ => false end.
+  match c with
+  | CSetRaising _ | CSetSer _ _ | CSetPrefs _ | CSetDX | CSetProfile _ | CSetLog _ | CNewParser _ _ => true
+  | _ => false
+  end.
 
 Definition res := list (list obs * term).
 
@@ -156,11 +223,9 @@ Fixpoint set_slot (n : nat) (v : bool) (ps : list (bool * bool)) : list (bool * 
   | S k, p :: r => p :: set_slot k v r
   | _, [] => []
   end.
-Definition set_parsers (ps : list (bool * bool)) (g : G) : G :=
-  mkG (saved g) (pushed g) (raising g) (ser g) (prefs g) (level g) (memo g) (sellevel g) (dx g) ps.
 
 (* the parse bracket: parse.py CSSParser.parseString / parseStyle around a body, whose execution is
-   the argument [ex] (= exec with the remaining fuel).
+   the argument [ex] (= the body run with the remaining fuel).
    The value written back at the end comes from
      - the frame of this activation              (parse_saves_at_entry && parse_saved_in_frame)
      - otherwise the parser object's slot self.__globalRaising, read when the parse ends; the slot is
@@ -186,6 +251,15 @@ Definition parse_bracket (st : sites) (who : option nat) (praise : bool)
                     end in
   let restore := if is_ret (snd r) then parse_restores_normal st else parse_restores_exc st in
   (if restore then set_raising restoreval g2 else g2, r).
+
+(* the memo bracket of serialize.py do_CSSStyleSheet, abstracted to the activation: with memo_scoped a
+   body starts from an empty selector memo and the previous one is put back when the body ends, however
+   it ends (inside the body the memo may be carried from one serialization to the next: more than the
+   code allows, which only makes the theorems stronger) *)
+Definition memo_bracket (st : sites) (ex : G -> G * (list obs * term)) (g : G) : G * (list obs * term) :=
+  if memo_scoped st then
+    let '(g', r) := ex (set_memo 0 0 g) in (set_memo (memo g) (sellevel g) g', r)
+  else ex g.
 
 (* exec: one body; step: one call (bracket + bodies).  One fuel bounds the whole activation tree. *)
 Fixpoint exec (st : sites) (fuel : nat) (b : body) (inited : bool) (os : list obs) (g : G) {struct fuel}
@@ -215,26 +289,30 @@ with step (st : sites) (fuel : nat) (c : call) (g : G) {struct fuel} : G * res :
   | CSetRaising b => (set_raising b g, [])
   | CSetSer i p => (set_ser i p 0 0 0 g, [])
   | CSetPrefs p => (set_prefs p g, [])
-  | CSetDX => (set_dx g, [])
-  | CNewParser praise => (add_parser (raising g, praise) g, [])
+  | CSetDX => (set_dx_cache (if dx_clears_cache st then [] else cache g) g, [])
+  | CSetProfile p => (set_profile p g, [])
+  | CSetLog l => (set_logcfg l g, [])
+  | CNewParser praise l =>
+      let g1 := match l with Some x => set_logcfg x g | None => g end in
+      (add_parser (raising g, praise) (tok_default st g1), [])
   | CParse who b =>
       match who with
-      | None => let '(g', r) := parse_bracket st None false (exec st f b false []) g in (g', [r])
+      | None => let '(g', r) := parse_bracket st None false (memo_bracket st (exec st f b false [])) g in (g', [r])
       | Some n => match nth_error (parsers g) n with
-                  | Some p => let '(g', r) := parse_bracket st (Some n) (snd p) (exec st f b false []) g in (g', [r])
+                  | Some p => let '(g', r) := parse_bracket st (Some n) (snd p) (memo_bracket st (exec st f b false [])) g in (g', [r])
                   | None => (g, [])          (* no such parser object: not a call *)
                   end
       end
   | CCombine fresh fp b1 bm b2 =>
-      let '(g1, r1) := parse_bracket st None false (exec st f b1 false []) g in
+      let '(g1, r1) := parse_bracket st None false (memo_bracket st (exec st f b1 false [])) g in
       if negb (is_ret (snd r1)) then (g1, [r1]) else
-      let '(g2, rm) := exec st f bm false [] g1 in
+      let '(g2, rm) := memo_bracket st (exec st f bm false []) g1 in
       if negb (is_ret (snd rm)) then (g2, [r1; rm]) else
       let g3 := set_ser fresh fp 0 0 0 g2 in
-      let '(g4, r2) := exec st f b2 false [] g3 in
+      let '(g4, r2) := memo_bracket st (exec st f b2 false []) g3 in
       let restore := if is_ret (snd r2) then comb_restores_normal st else comb_restores_exc st in
       (if restore then set_ser (ser g2) (prefs g2) (level g2) (memo g2) (sellevel g2) g4 else g4, [r1; rm; r2])
-  | CPlain b => let '(g', r) := exec st f b false [] g in (g', [r])
+  | CPlain b => let '(g', r) := memo_bracket st (exec st f b false []) g in (g', [r])
   end
   end.
 
@@ -244,22 +322,27 @@ Definition result (st : sites) (fuel : nat) (g : G) (c : call) : res := snd (ste
 
 Definition setters (hist : list call) : list call := filter is_setter hist.
 
-(* what a caller can observe of the process-wide settings *)
-Definition settings := (bool * N * N * bool)%type.   (* raiseExceptions, serializer, its preferences, DX production *)
-Definition observable (g : G) : settings := (raising g, ser g, prefs g, dx g).
+(* what a caller can observe of the process-wide settings:
+   raiseExceptions, serializer, its preferences, DX production, profiles, log level/handlers *)
+Definition settings := (bool * N * N * bool * N * N)%type.
+Definition observable (g : G) : settings := (raising g, ser g, prefs g, dx g, profile g, logcfg g).
 
 Definition set_by (s : settings) (c : call) : settings :=
-  let '(r, i, p, d) := s in
+  let '(r, i, p, d, pf, l) := s in
   match c with
-  | CSetRaising b => (b, i, p, d)
-  | CSetSer i' p' => (r, i', p', d)
-  | CSetPrefs p' => (r, i, p', d)
-  | CSetDX => (r, i, p, true)
+  | CSetRaising b => (b, i, p, d, pf, l)
+  | CSetSer i' p' => (r, i', p', d, pf, l)
+  | CSetPrefs p' => (r, i, p', d, pf, l)
+  | CSetDX => (r, i, p, true, pf, l)
+  | CSetProfile pf' => (r, i, p, d, pf', l)
+  | CSetLog l' => (r, i, p, d, pf, l')
+  | CNewParser _ (Some l') => (r, i, p, d, pf, l')
   | _ => s
   end.
 Definition last_set_by_caller (hist : list call) : settings := fold_left set_by hist (observable G0).
 
-(* the caller never switches the experimental indentSpecificities preference on *)
+(* the caller never switches the experimental indentSpecificities preference on (needed only for trees
+   without memo_scoped) *)
 Definition no_indent_call (c : call) : bool :=
   match c with CSetSer _ p | CSetPrefs p => negb (indent_pref p) | _ => true end.
 Definition no_indent (hist : list call) : bool := forallb no_indent_call hist.
@@ -268,14 +351,14 @@ Definition no_indent (hist : list call) : bool := forallb no_indent_call hist.
 Definition script (l : list action) : body := fun os => nth (length os) l Ret.
 
 (* -------------------------------------------------------------------------------- correspondence *)
-(* One traced call of the implementation: the call, and the cells read after it.  [agrees] runs the
-   model and compares; used by the harness through vm_compute. *)
+(* One traced call of the implementation: the call, and the cells read after it. *)
 Definition eqb_lN (a b : list N) : bool := eqs a b.
 Definition eqb_G (a b : G) : bool :=
   eqb_lN (saved a) (saved b) && eqb_lN (pushed a) (pushed b) && Bool.eqb (raising a) (raising b) &&
   N.eqb (ser a) (ser b) && N.eqb (prefs a) (prefs b) && Z.eqb (level a) (level b) &&
   N.eqb (memo a) (memo b) && Z.eqb (sellevel a) (sellevel b) && Bool.eqb (dx a) (dx b) &&
-  Nat.eqb (length (parsers a)) (length (parsers b)).
+  Nat.eqb (length (parsers a)) (length (parsers b)) &&
+  N.eqb (profile a) (profile b) && N.eqb (logcfg a) (logcfg b) && Nat.eqb (length (cache a)) (length (cache b)).
 
 Definition term_code (t : term) : nat :=
   match t with TRet => 0 | TExc => 1 | TFuel => 2 | TUninit => 3 | TNestSet => 4 end.
